@@ -26,7 +26,7 @@ REACH = {'stil.StilFile': ('stil.py', 28, 180), 'stil.transformer': ('stil.py', 
 
 def plan(tier, seed):
     q = tier == 'quick'
-    return [{'n': 40 if q else 800} for _ in range(16)]
+    return [{'n': 200 if q else 5000} for _ in range(16)]
 
 
 def conclude(agg):
